@@ -433,10 +433,8 @@ Proof.
   - cbn [run_gen fold_left step_gen]. cbn [hist_rows hist_ids] in HI, HB. cbn [hist_fresh step_gen] in HFr.
     assert (HSt : singles_ok t) by (intros a b I; apply (HS a b); right; exact I).
     assert (HXt : explicit_apart t) by (intros a b I; apply (HX a b); right; exact I).
-    apply (IH K (fun k => recover (st k))); try assumption.
-    + intros ws. apply recover_inv. apply HI.
-    + intros ws. apply (recover_inv _ _ (HI ws)).
-    + intros ws. cbn. apply HN.
+    apply (IH K (fun k => recover (st k))); try assumption;
+      try (intros ws; apply recover_inv; apply HI); try (intros ws; apply (recover_inv _ _ (HI ws))); try (intros ws; cbn; apply HN).
 Qed.
 
 Theorem log_ids_distinct_proved : forall au ps h,
@@ -450,4 +448,32 @@ Proof.
   - intros ws. apply (init_inv 0). pose proof layout_user_fits. lia.
   - intros ws. constructor.
   - eapply Forall_impl; [|exact B2]. cbn. intros; lia.
+Qed.
+
+Definition event_freshb (w : wstate) (ev : event) : bool :=
+  forallb (fun r => is_raw (r_id r) || negb (memb (r_id r) (w_log w))) (e_arg ev ++ e_creates ev)
+  && forallb (fun r => (r_single r =? 0) || negb (memb (r_single r) (w_log w))) (e_creates ev).
+Fixpoint hist_freshb (au ps : bool) (st : state) (h : list iop) : bool :=
+  match h with
+  | [] => true
+  | IRestart :: t => hist_freshb au ps (step_gen au ps st IRestart) t
+  | IEvent ws ev :: t =>
+      (negb (valid ev) || event_freshb (st ws) ev)
+      && hist_freshb au ps (upd st ws (fst (step_event_gen au ps (st ws) ev))) t
+  end.
+
+Lemma event_freshb_sound w ev : event_freshb w ev = true -> event_fresh w ev.
+Proof.
+  unfold event_freshb, event_fresh. rewrite andb_true_iff. intros [A B]. split.
+  - apply forallb_Forall in A. eapply Forall_impl; [|exact A]. cbn. intros r H R J.
+    rewrite R in H. cbn in H. apply negb_true_iff in H. apply memb_false in H. contradiction.
+  - apply forallb_Forall in B. eapply Forall_impl; [|exact B]. cbn. intros r H NZ J.
+    apply N.eqb_neq in NZ. rewrite NZ in H. cbn in H. apply negb_true_iff in H. apply memb_false in H. contradiction.
+Qed.
+
+Lemma hist_freshb_sound au ps : forall h st, hist_freshb au ps st h = true -> hist_fresh au ps st h.
+Proof.
+  induction h as [|[ws ev|] t IH]; intros st H; cbn in *; [exact I| |apply IH; exact H].
+  apply andb_true_iff in H. destruct H as [A B]. split; [|apply IH; exact B].
+  intros V. rewrite V in A. cbn in A. apply event_freshb_sound. exact A.
 Qed.
